@@ -289,6 +289,38 @@ def rule_d(ctx):
 KR = "grpc::key_registry::KeyRegistry::"
 
 
+def rule_d_indices(ctx):
+    """The keyed queue keeps two arrays that point at each other: heap items carry `slab_idx`, slab nodes carry `heap_idx`. Every
+    access to one array through the other uses exactly that link field (an index taken from any other field - a key, an epoch, a
+    position - addresses a different entry as soon as a slot has been reused)."""
+    P = ctx.prog
+    n = 0
+    for nm in ("peek", "pull", "extract", "insert", "sift_up", "sift_down"):
+        b = P.body(IPQ + "IndexedPriorityQueue::" + nm)
+        if b is None:
+            continue
+        for s in b.calls(r"std::ops::Index::index$|std::ops::IndexMut::index_mut$|slice.*::get(_mut)?$|std::vec::Vec::get(_mut)?$"):
+            ao = b.origins(s.args()[0], s)
+            io = b.origins(s.args()[1], s)
+            arrays = set(origin_proj_names(o)[1][-1][1] for o in ao if origin_proj_names(o)[1] and origin_proj_names(o)[1][-1][0] == "f")
+            if len(arrays) != 1 or not (arrays <= {"slab", "heap"}):
+                continue
+            arr = next(iter(arrays))
+            want = "slab_idx" if arr == "slab" else "heap_idx"
+            linked = []
+            for o in io:
+                names = origin_proj_names(o)[1]
+                fields = [x[1] for x in names if x[0] == "f" and not x[1].isdigit()]
+                if fields and fields[-1] in ("slab_idx", "heap_idx", "epoch", "key", "next"):
+                    linked.append(fields[-1])
+            if not linked:
+                continue  # positional index (parent / child position, free-list head, len): covered by the heap shape, not a link
+            n += 1
+            ctx.ob("link-field|%s|%s" % (nm, arr), all(f == want for f in linked),
+                   "IndexedPriorityQueue::%s addresses `%s` through the `%s` link (found %s)" % (nm, arr, want, sorted(set(linked))), [s])
+    ctx.ob("floor|link-field-accesses", n >= 5, "expected >= 5 link-field accesses in the keyed queue (found %d)" % n)
+
+
 def rule_e(ctx):
     """gRPC key registry (only compiled with the `grpc` feature: thorough tier)"""
     P = ctx.prog
@@ -331,6 +363,7 @@ RULES = [
     ("C20.b", "epochs unique and increasing; pull/peek return the heap top", rule_b),
     ("C20.c", "UniqueKey orders by (key, epoch)", rule_c),
     ("C20.d", "extract only on matching epoch; InsertKey carries it", rule_d),
+    ("C20.i", "heap <-> slab accesses go through the slab_idx / heap_idx link fields", rule_d_indices),
 ]
 
 
